@@ -531,7 +531,7 @@ class Manager:
                 if state.timeout >= 0:
                     self.removeHandler(state.tick_handler, 'generate_events')
 
-        def _on_tick(self):
+        def _on_tick(self, event):
             if state.timeout == 0:
                 self.registerTask(
                     (
@@ -547,6 +547,10 @@ class Manager:
                 self.removeHandler(_on_tick_handler, 'generate_events')
             elif state.timeout > 0:
                 state.timeout -= 1
+                # the timeout is counted in loop iterations: keep the
+                # loop turning while it runs (an idle loop would block in
+                # its generate_events handler for good)
+                event.reduce_time_left(TIMEOUT)
 
         if not channels:
             channels = (None,)
